@@ -975,7 +975,17 @@ def _check_noop_rule(f, c, sid):
                             _short(msgs[0]['data']))))
         elif ph == 'probed':
             nxt = u.get('seq_after_probe') or u.get('seq_end')
-            if nxt is not None and req.seq_resp < nxt:
+            # (the handler of an earlier, failed attempt that the server was
+            # still winding down when this handshake began clears the hold
+            # on its way out; only clients that open a new upgrade socket
+            # before the server has seen the old one close get there)
+            wound_down_late = any(
+                o is not u and o['conn'].req.seq_done is not None and
+                u['conn'].req.seq_arrive is not None and
+                o['conn'].req.seq_done > u['conn'].req.seq_arrive
+                for o in c.upgrades)
+            if nxt is not None and req.seq_resp < nxt and \
+                    not wound_down_late:
                 out.append(V('one-transport', '%s|message-on-poll-during-'
                              'handshake' % f.impl,
                              'client %d: poll %d lived entirely between '
